@@ -364,4 +364,59 @@ theorem trie_end_to_end_quant_exact (fval : Nat → Rat) (fadd : Nat → Nat →
     ofTableG_bound _ bound a.order start _ array bh (by have := enc.wf.order_ge; omega)
   exact KV.C03Trie.trie_prob a enc.wf (fun _ => false) fval _ _ rep2 h st sf w hw (by rw [hbd]; exact hwb) (by rw [hbd]; exact hs)
 
+/-! ## non-vacuity: the layout hypotheses hold for the example model in all three new layouts -/
+
+section Examples
+open KV.Table KV.Score
+
+instance : DecidableRel RegionSpec.Before := fun R R' => inferInstanceAs (Decidable (R.base + R.nrec * R.stride ≤ R'.base))
+
+/-- the bit table the builder makes of `kArpa` (hallucinated `<unk>`, n-grams ending in `<unk>`, one blank) -/
+def kTable : BT :=
+  fixUnk (unkOf kArpa unkBits) (genTable kAdd kArpa.order (visitOrder (gramsOf kArpa kP kB)) [⟨[2, 3], 1, 3217031168⟩])
+
+/-- a quantiser shape with 2-bit probability and 3-bit back-off codes (values irrelevant for the layout) -/
+def q23 : QSpec := ⟨2, 3, fun _ => List.replicate 4 0, fun _ => List.replicate 8 0, fun _ => 0, fun _ => 0⟩
+
+theorem k_shape (q : Option QSpec) (array : Bool) (bh : Nat)
+    (h1 : (setupG kTable 5 3 144 q array bh).middles.length = 1)
+    (h2 : (midG kTable 5 3 144 q array bh 0).wordBits = KV.Bits.requiredBits 5 ∧
+      (midG kTable 5 3 144 q array bh 0).quantBits = QB q ∧
+      (midG kTable 5 3 144 q array bh 0).totalBits = KV.Bits.requiredBits 5 + QB q + (midG kTable 5 3 144 q array bh 0).inline ∧
+      (midG kTable 5 3 144 q array bh 0).inline ≤ 57 ∧
+      (array = false → (level kTable 5 3).length < 2^(midG kTable 5 3 144 q array bh 0).inline) ∧
+      (array = true → ((midG kTable 5 3 144 q array bh 0).offEnd - (midG kTable 5 3 144 q array bh 0).offBegin) / 8
+        = ((level kTable 5 3).length >>> (midG kTable 5 3 144 q array bh 0).inline) + 1))
+    (h3 : (setupG kTable 5 3 144 q array bh).longest.2.1 = KV.Bits.requiredBits 5 ∧
+      (setupG kTable 5 3 144 q array bh).longest.2.2 = KV.Bits.requiredBits 5 + LB q)
+    (h4 : (regionsG kTable 5 3 144 q array bh).Pairwise RegionSpec.Before) : ShapeG kTable 5 3 144 q array bh := by
+  refine ⟨h1, ?_, h3, h4, by decide +kernel, ⟨by decide, ?_⟩⟩
+  · intro om2 h
+    have : om2 = 0 := by omega
+    subst this; exact h2
+  · intro k hk
+    have : k = 0 ∨ k = 1 ∨ k = 2 ∨ k = 3 := by omega
+    rcases this with rfl | rfl | rfl | rfl <;> decide +kernel
+
+theorem k_shape_array : ShapeG kTable 5 3 144 none true 3 :=
+  k_shape none true 3 (by decide +kernel) (by decide +kernel) (by decide +kernel) (by decide +kernel)
+
+theorem k_shape_quant : ShapeG kTable 5 3 144 (some q23) false 0 :=
+  k_shape (some q23) false 0 (by decide +kernel) (by decide +kernel) (by decide +kernel) (by decide +kernel)
+
+theorem k_shape_quant_array : ShapeG kTable 5 3 144 (some q23) true 2 :=
+  k_shape (some q23) true 2 (by decide +kernel) (by decide +kernel) (by decide +kernel) (by decide +kernel)
+
+/-- **non-vacuity of `trie_end_to_end_array`**: all hypotheses hold for the example model with a hallucinated `<unk>` and a blank;
+every `FullScore` over the `ArrayTrieModel` memory (search region at byte 144, `-a 3`) is the ARPA recursion -/
+theorem example_end_to_end_array (h : List Word) (st : KV.State.State)
+    (sf : StateFor kArpa h st) (w : Word) (hw : kArpa.gram [w] ≠ none) (hwb : w < 5)
+    (hs : ∀ x ∈ st.words.take st.length, x < 5) :
+    ∃ b, buildTableU kAdd kArpa.order (gramsOf kArpa kP kB) (unkOf kArpa unkBits) = .ok b ∧
+      (fullScore (search f32ToRat (ofTableG b.table 5 kArpa.order 144 none true 3)) st w).1.prob = score kArpa h w :=
+  trie_end_to_end_array f32ToRat kAdd kArpa 5 144 kP kB unkBits k_enc k_unk k_arith true 3
+    (fun vs hvs => by rw [k_blanks vs hvs]; exact k_shape_array) h st sf w hw hwb hs
+
+end Examples
+
 end KV.C03TrieG
